@@ -712,6 +712,27 @@ class BaseSection(base.Sectionable):
             if mine is not None:
                 mine.merge_check(obj, strict)
 
+    def _merge_name_check(self, source_section):
+        """
+        Recursively checks that every sub-Section of the source that a merge would
+        add to self, or to a Section of self it is merged with, can be added there:
+        a sub-Section of the source that *contains* does not find (no child with
+        the same name *and* type) is added as a copy, which the child list refuses
+        if the name is already used by a child Section of another type.
+        Raises a ValueError in this case.
+
+        :param source_section: an odML Section.
+        """
+        for obj in source_section.sections:
+            mine = self.contains(obj)
+            if mine is not None:
+                mine._merge_name_check(obj)
+            elif obj.name in self.sections:
+                raise ValueError(
+                    "odml.Section.merge: src Section '%s' cannot be added to '%s', which "
+                    "has a Section of the same name and a different type!" %
+                    (obj.name, self.name))
+
     def merge(self, section=None, strict=True):
         """
         Merges this section with another *section*.
@@ -738,6 +759,7 @@ class BaseSection(base.Sectionable):
         # its children can be merged with self and its children since
         # there is no rollback in case of a downstream merge error.
         self.merge_check(section, strict)
+        self._merge_name_check(section)
 
         if self.definition is None and section.definition is not None:
             self.definition = section.definition
